@@ -1,19 +1,22 @@
-use vp::props::c16::SddCacheCase;
-use vp::sddi::*;
-use vp::walk::*;
-use rsdd::builder::sdd::SemanticSddBuilder;
-use rsdd::constants::primes;
+use proptest::strategy::{Strategy, ValueTree};
+use proptest::test_runner::{Config, RngAlgorithm, TestRng, TestRunner};
+use vp::engine::{Stats, SubCheckT, Tier};
+use vp::props::c05::*;
 fn main() {
-    let v: serde_json::Value = serde_json::from_str(&std::fs::read_to_string("/tmp/c16-sem.json").unwrap()).unwrap();
-    let case: SddCacheCase = serde_json::from_value(v["case"].clone()).unwrap();
-    let shape = case.vt.shape();
-    println!("shape {:?}", shape);
-    let b: SemanticSddBuilder<{ primes::U64_LARGEST }> = SemanticSddBuilder::new(case.vt.to_vtree());
-    let mut run = SddRun::new(&b, shape.leaves());
-    for (i, op) in case.ops.iter().enumerate() {
-        if let Some(out) = run.step(op) {
-            let (p, t) = run.pool[out.idx];
-            println!("op#{} {:?} -> pool[{}] args {:?} oracle {:?} walked {:?} {}", i, op, out.idx, out.args, t, sdd_tt(p), if sdd_tt(p) == t { "" } else { "  <<<<<< WRONG" });
+    let mut runner = TestRunner::new_with_rng(Config::default(), TestRng::from_seed(RngAlgorithm::ChaCha, &[7u8; 32]));
+    let strat = <CnfLarge as SubCheckT>::strategy(Tier::Quick);
+    let mut tot = std::time::Duration::ZERO;
+    let mut worst = std::time::Duration::ZERO;
+    for i in 0..20000 {
+        let case = strat.new_tree(&mut runner).unwrap().current();
+        let t = std::time::Instant::now();
+        let r = std::thread::scope(|_| run_cnf_large(&case, &mut Stats::default()));
+        let e = t.elapsed();
+        tot += e;
+        if e > worst { worst = e; println!("worst so far #{} {:?} vt {} clauses {}", i, e, case.vtree_kind, case.clauses.len()); }
+        if e.as_millis() > 200 {
+            println!("#{} {:?} vt {} clauses {} in {:?}: {:?}", i, r.map_err(|f| f.signature), case.vtree_kind, case.clauses.len(), e, case.clauses);
         }
     }
+    println!("total {:?}", tot);
 }
